@@ -293,6 +293,18 @@ def gridded(rep, r, n, lines, exps, metas):
         if not np.allclose(v, ref, rtol=1e-10, atol=1e-14):
             rep.violation('gridded-not-bilinear-blend', 'GriddedPSFModel value is not the weighted blend of its bounding ePSFs', replay)
             continue
+        # a copy is independent of the model it was made from (parameters included)
+        with warnings.catch_warnings():
+            warnings.simplefilter('ignore')
+            m.x_0, m.y_0, m.flux = x0, y0, 2.0
+            v1 = m(x, y)
+            cp = m.copy()
+            cp.flux, cp.x_0, cp.y_0 = 5.0, x0 + 3.0, y0 - 2.0
+            v2 = m(x, y)
+        if not (np.array_equal(v1, v2) and float(m.flux.value) == 2.0 and float(m.x_0.value) == x0 and float(m.y_0.value) == y0):
+            rep.violation('gridded-copy-aliases-original', f'changing flux / x_0 / y_0 of GriddedPSFModel.copy() changed the original model '
+                          f'(flux {float(m.flux.value)}, x_0 {float(m.x_0.value)}; evaluation changed: {not np.array_equal(v1, v2)})', replay)
+            continue
         # clamping: outside the hull the value equals the value at the nearest point of the hull
         xc, yc = min(max(x0, min(gx)), max(gx)), min(max(y0, min(gy)), max(gy))
         if (xc, yc) != (x0, y0):
